@@ -212,7 +212,19 @@ func genTuple(r *core.Rand) URLCase {
 func genRaw(r *core.Rand, tier string) URLCase {
 	c := URLCase{Kind: "raw", Via: core.Choice(r, []string{"dial", "dialctx"}), Stub: core.Choice(r, []string{"plain", "ctx", "both"})}
 	special := []string{"%", "%zz", "%0", "%00", "%2F", "%2f..", ":", "/", "//", "///", "@", "?", "#", "[", "]", "[::", "\x00", "\x7f", "\n", "\r", " ", ";", "&", "=", "host=", "?host=", "?host=%", "..", "/../", "\\", "é", "\xff", ":99999999", "://"}
-	switch r.Pick(3, 5, 2, 1, 2) {
+	switch r.Pick(3, 5, 2, 1, 2, 2) {
+	case 5: // short targets spelled with letters whose case mapping changes their length
+		// (U+017F long s -> S, U+0131 dotless i -> I: two bytes become one; U+0250 -> U+2C6F: two become three)
+		units := []string{"\u017f", "\u0131", "%C5%BF", "%C4%B1", "\u0250", "%C9%90", "a", "I", "-", "1", "\u00e9", "%c5%bf"}
+		var t string
+		for i, n := 0, r.Range(1, 4); i < n; i++ {
+			t += core.Choice(r, units)
+		}
+		via := ""
+		if r.Chance(0.3) {
+			via = "/" + core.Choice(r, []string{"LD5SK", "\u017f\u017f", "d1"})
+		}
+		c.Raw = Bin(core.Choice(r, []string{"ax25", "ax25+agwpe", "simx", "telnet", "ardop"}) + "://" + core.Choice(r, []string{"", "h", "u:p@h:1"}) + via + "/" + t + core.Choice(r, []string{"", "?a=b", "?host=x"}))
 	case 0: // seeded garbage
 		c.Raw = r.Bytes(r.Range(0, 200))
 	case 1: // mutated valid URL
